@@ -126,3 +126,20 @@ fn str_len_diff(a: &str, b: &str) -> (r: usize)
 fn str_is_empty(s: &str) -> (r: bool)
     ensures r == (s@.len() == 0),
 { s.is_empty() }
+
+/// a non-empty line that does not start with the byte ' ' does not start with the char ' '
+proof fn lemma_first_char_not_space(line: &str)
+    requires line@.len() > 0, !(line.spec_bytes().len() > 0 && line.spec_bytes()[0] == 0x20),
+    ensures line@[0] != ' ',
+{
+    let cs = line@;
+    if cs[0] == ' ' {
+        assert(cs.take(1) =~= Seq::<char>::empty().push(' '));
+        encode_utf8_push(Seq::<char>::empty(), ' ');
+        reveal_with_fuel(encode_utf8, 1);
+        lemma_scalar_ascii(' ' as u32);
+        assert(cs =~= cs.take(1) + cs.skip(1));
+        encode_utf8_concat(cs.take(1), cs.skip(1));
+        assert(encode_utf8(cs)[0] == 0x20);
+    }
+}
